@@ -61,13 +61,15 @@ def _geoms(tier):
     for g in q:
         g = dict(g)
         g["W"] += 1
+        if g["total"]:
+            g["total"] += 1  # the window grows by one unit: so does the disk behind it
         t.append(g)
     t += [
         dict(kind="hosted", grain=16, W=4, cut=15, at=0, total=None, alpha="H3"),
         dict(kind="hosted", grain=8, W=3, cut=0, at=200 * 512 - 2, total=200 * 512 + 1, alpha="H3", comp=True, footer=True,
              stride=10, only=[HOLE, ZERO, DATA]),
         dict(kind="sesparse", grain=8, W=4, cut=0, at=1023, total=1027, alpha="SE", gts=16, cbase=7),
-        dict(kind="sesparse", grain=8, W=4, cut=0, at=511, total=514, alpha="SE", gts=8, cbase=0, gt_order="desc"),
+        dict(kind="sesparse", grain=8, W=4, cut=0, at=511, total=516, alpha="SE", gts=8, cbase=0, gt_order="desc"),
         dict(kind="cowd", grain=16, W=4, cut=0, at=0, total=None, alpha="CW"),
     ]
     return t
